@@ -2,6 +2,7 @@ import AggkitModel.Properties.C02
 import AggkitModel.Generated.CertFacts
 import AggkitModel.Generated.InitialStatus
 import AggkitModel.Generated.FlowBase
+import AggkitModel.Generated.NextHeight
 /-
 C13 — certificate bookkeeping survives crashes and a lost database.
 Property theorems only. The operations quantified over include `crash` (between two loop iterations), a tick whose
@@ -352,5 +353,51 @@ theorem C13_next_start_is_the_source (start : Nat) (row : Option Row)
       · have : r.from_ = 0 := by omega
         simp [he, this]
     · simp [he]
+
+/-! ### height and previous exit root of the next certificate, regenerated from the source -/
+
+def fullHdrOfRow (r : Row) : FullHdr :=
+  { Height := r.height, Status := stCode r.status, NewLocalExitRoot := r.new, PreviousLocalExitRoot := r.prev }
+
+/-- the environment the model assumes: the network's start exit root is the empty tree's (0 leaves), the store answers every
+    height query with the row it holds there -/
+def envOf (loc : List Row) : baseFlowEnv :=
+  { getStartLER := some 0, headerByHeight := fun h => some ((rowAt loc h).map fullHdrOfRow) }
+
+theorem stCode_isOpen (s : St) : Gen.NextHeight.CertificateStatus_IsOpen (stCode s) = s.isOpen := by cases s <;> rfl
+theorem stCode_isSettled (s : St) : Gen.NextHeight.CertificateStatus_IsSettled (stCode s) = decide (s = .settled) := by
+  cases s <;> rfl
+theorem stCode_isInError2 (s : St) : Gen.NextHeight.CertificateStatus_IsInError (stCode s) = decide (s = .inError) := by
+  cases s <;> rfl
+
+/-- **`getNextHeightAndPreviousLER` IS the source**: the translation of `baseFlow.getNextHeightAndPreviousLER` (nil check,
+    status predicates, a pointer field inside the record, two calls into the environment — `getStartLER` and the store's
+    `GetCertificateHeaderByHeight` — each with its error branch) regenerated from aggsender/flows/flow_base.go on every run
+    returns, for every last record and every store content, what the model's `nextHeightPrev` returns: the height and the
+    previous exit root every certificate is built from (C02's chain, C13's "correct height, previous exit root"). It never
+    dereferences nil. Bound: heights are `uint64`. -/
+theorem C13_next_height_is_the_source (loc : List Row) (last : Option Row) (hb : ∀ r ∈ last, r.height + 1 < 2^64) :
+    Gen.NextHeight.baseFlowEnv_getNextHeightAndPreviousLER (envOf loc) (last.map fullHdrOfRow) = some (nextHeightPrev loc last) := by
+  cases last with
+  | none => simp [Gen.NextHeight.baseFlowEnv_getNextHeightAndPreviousLER, envOf, nextHeightPrev]
+  | some r =>
+    have h2 := hb r rfl
+    have e1 : add64 r.height 1 = r.height + 1 := by unfold add64; exact Nat.mod_eq_of_lt h2
+    have e2 : r.height ≠ 0 → sub64 r.height 1 = r.height - 1 := by
+      intro hp
+      unfold sub64
+      have h1' : (1 : Nat) % 2 ^ 64 = 1 := Nat.mod_eq_of_lt (by decide)
+      rw [h1']
+      have : r.height + 2 ^ 64 - 1 = (r.height - 1) + 2 ^ 64 := by omega
+      rw [this, Nat.add_mod_right]
+      exact Nat.mod_eq_of_lt (by omega)
+    simp only [Gen.NextHeight.baseFlowEnv_getNextHeightAndPreviousLER, Gen.NextHeight.CertificateStatus_IsClosed, envOf, nextHeightPrev,
+      fullHdrOfRow, Option.map_some, Option.pure_def, Option.bind_eq_bind, Option.bind_some, Option.isNone_some, Bool.false_eq_true,
+      if_false, stCode_isOpen, stCode_isSettled, stCode_isInError2, e1, Bool.not_not]
+    cases hs : r.status <;> simp [hs, St.isOpen] <;>
+      (cases hp : r.prev <;> simp [hp]) <;>
+      (by_cases h0 : r.height = 0 <;> simp [h0, e2]) <;>
+      (cases hq : rowAt loc (r.height - 1) <;> simp [hq, fullHdrOfRow, stCode_isSettled]) <;>
+      (rename_i q; by_cases hst : q.status = .settled <;> simp [hst])
 
 end Aggkit.Aggsender
